@@ -65,7 +65,7 @@ def run(ctx):
     keys = sorted(strata, key=repr)
     rnd.shuffle(keys)
     keys.sort(key=prio)   # stable: shuffled within a priority class
-    peers, bulk = (80, 2000) if ctx.thorough else (4, 120)
+    peers, bulk = (80, 2000) if ctx.thorough else (3, 90)
     want = peers + bulk
     picked = []
     while len(picked) < want and any(strata.values()):
@@ -95,7 +95,7 @@ def run(ctx):
         pst.setdefault((s["scn"]["kind"], s["scn"]["force"], s["scn"]["prune"]), []).append(s)
     # prune with a renaming refspec first (they reach the git->git witness and every pairing), forced before unforced
     pkeys = sorted(pst, key=lambda k: (not k[2], k[0] == "id", not k[1], k[0]))
-    ppeers, pbulk = (40, 1500) if ctx.thorough else (3, 110)
+    ppeers, pbulk = (40, 1500) if ctx.thorough else (3, 80)
     ppicked = []
     while len(ppicked) < ppeers + pbulk and any(pst.values()):
         for k in pkeys:
